@@ -141,6 +141,15 @@ def payload_cbpy(s):
     return f"(some ({m.group(1)}, {m.group(2)}, {m.group(3)}, {m.group(4)}))"
 
 
+def rust_int(lit):
+    """a Rust integer literal: decimal / 0x / 0o / 0b, `_` separators, optional type suffix, optional sign"""
+    t = lit.strip().replace("_", "")
+    t = re.sub(r"(u8|u16|u32|u64|u128|usize|i8|i16|i32|i64|i128|isize)$", "", t)
+    if not re.fullmatch(r"-?(0x[0-9a-fA-F]+|0o[0-7]+|0b[01]+|\d+)", t):
+        raise TranslateError(f"integer literal not understood: {lit!r}")
+    return int(t, 0) if not t.lstrip("-").isdigit() else int(t)
+
+
 def dec_to_fraction(lit):
     lit = lit.strip().replace("_", "")
     lit = re.sub(r"f32$|f64$", "", lit)
@@ -234,7 +243,7 @@ def sec_deblock_table():
     rel = "deblock/src/deblock.rs"
     src = strip_comments(read(rel))
     body = const_body(src, "QUANT_TO_STRENGTH", rel)
-    vals = [int(x) for x in split_top(body)]
+    vals = [rust_int(x) for x in split_top(body)]
     w(f"def QUANT_TO_STRENGTH : Array Nat := #[{', '.join(map(str, vals))}]")
     w("")
     return L
@@ -312,10 +321,10 @@ def sec_dezigzag_basis():
     body = const_body(src, "DEZIGZAG_MAPPING", rel)
     pairs = []
     for e in split_top(body):
-        m = re.fullmatch(r"\(\s*(\d+)\s*,\s*(\d+)\s*\)", e)
+        m = re.fullmatch(r"\(\s*(\w+)\s*,\s*(\w+)\s*\)", e)
         if not m:
             raise TranslateError(f"{rel}: DEZIGZAG_MAPPING entry {e!r}")
-        pairs.append((int(m.group(1)), int(m.group(2))))
+        pairs.append((rust_int(m.group(1)), rust_int(m.group(2))))
     w("/-- (x, y) per zig-zag index. -/")
     w("def DEZIGZAG : Array (Nat × Nat) := #[" + ", ".join(f"({a}, {b})" for a, b in pairs) + "]")
     w("")
@@ -484,7 +493,12 @@ def main():
     fallbacks = []
     for name, fn in SECTIONS:
         try:
-            lines = fn()
+            try:
+                lines = fn()
+            except TranslateError:
+                raise
+            except Exception as e:  # a pattern matched something it does not understand
+                raise TranslateError(f"section {name}: {type(e).__name__}: {e}")
         except TranslateError as e:
             if strict or name not in baseline:
                 raise
